@@ -575,6 +575,12 @@ def plans_C08(g, tier):
                                 sm = tuple(sv) + (0,) * (3 - s_)
                                 sh_shadow = shadow if fn == F1 else (shadow_v if fn == V1 else (shadow_r if fn == R1 else shadow_cr))
                                 pre.append([allow_g, sh_shadow, g.create(0, sh, obj=0, lo=1, hi=2, wmode=wm, semode=sm, actmode=am)])
+                                if w >= 1 and am == 0 and act in ('RET', 'NONE') and s_ <= 1:
+                                    # positional matcher eq(1): a call with another argument is turned down by the parameter, and the WITH clauses are not consulted at all
+                                    she = g.shape(fn=fn, mk1='EQ', nwith=w, nse=s_, tform='RT', act=act, clauses=clauses)
+                                    pre.append([allow_g, sh_shadow, g.create(0, she, obj=0, k1=1, lo=1, hi=2, wmode=wm, semode=sm, actmode=am)])
+                                    if any(x != 0 for x in wv):
+                                        pre.append([allow_g, g.create(0, she, obj=0, k1=1, lo=1, hi=2, wmode=wm, semode=sm, actmode=am)])   # ... nor when the no-match report is composed
                                 if w >= 2 and am == 0 and act in ('RET', 'NONE') and any(x != 0 for x in wv):
                                     # no older expectation to fall back on: a turned-down call is a no-match report, which states the first failing WITH
                                     pre.append([allow_g, g.create(0, sh, obj=0, lo=1, hi=2, wmode=wm, semode=sm, actmode=am)])
